@@ -762,6 +762,14 @@ class BeliefPropagation(Inference):
 
         # \mu_{i, j} = \sigma_{i \rightarrow j}
         self.sepset_beliefs[sepset_key] = sigma
+        _verif.emit(
+            "BP.Send",
+            sender=sending_clique,
+            receiver=receiving_clique,
+            operation=operation,
+            beta=self.clique_beliefs[receiving_clique],
+            mu=sigma,
+        )
 
     def _is_converged(self, operation):
         """
